@@ -263,3 +263,54 @@ func c19RouteBody(L int) {
 	vAssert(uint64(rt.ReceiverAmt())+uint64(rt.TotalFees()) == uint64(rt.TotalAmount), "receiver amount + total fees = total amount")
 	vAssert(uint64(rt.HopFee(L-1)) == 0, "no fee for the final hop")
 }
+
+// VerifC19Compose: the amount the search range-checks for an edge is the amount
+// the route sends over it. findPath (processEdge / getEdge*) works with
+//
+//	netAmountReceived = amountToSend(next edge) + outboundFee(next edge)
+//	amountToSend      = netAmountReceived + calcCappedInboundFee(edge, netAmountReceived, outboundFee)
+//
+// and tests amtInRange / bandwidth / fee limit on amountToSend. Here the two
+// real helpers (ComputeFee, calcCappedInboundFee) are combined exactly in that
+// way for the first edge of a 2-edge path and compared with what the real
+// newRoute puts on that edge. (The combination itself, two additions, is the
+// only part of processEdge restated here.)
+func VerifC19Compose() {
+	c19RouteConfig()
+	vOverflow("github.com/lightningnetwork/lnd/routing.calcCappedInboundFee")
+	vOverflow("github.com/lightningnetwork/lnd/routing.VerifC19Compose")
+	var pol [2]c19Pol
+	var edges []*unifiedEdge
+	for i := 0; i < 2; i++ {
+		p, e := c19EdgeInput(i)
+		pol[i] = p
+		edges = append(edges, e)
+	}
+	var source route.Vertex
+	source[0] = 3
+	amt := vU64("amt")
+	height := vU32("height")
+	finalDelta := vU16("finalCltvDelta")
+	vAssume(amt <= c19MaxChan)
+	vAssume(height < 1<<31)
+	x0 := amt + c19Demand(pol[0], pol[1], amt)
+	vAssume(x0 <= c19MaxChan)
+
+	outboundFee := edges[1].policy.ComputeFee(lnwire.MilliSatoshi(amt))
+	net := lnwire.MilliSatoshi(amt) + outboundFee
+	inb := calcCappedInboundFee(edges[0], net, outboundFee)
+	amountToSend := lnwire.MilliSatoshi(uint64(int64(net) + inb))
+
+	rt, err := newRoute(source, edges, height, finalHopParams{
+		amt:       lnwire.MilliSatoshi(amt),
+		totalAmt:  lnwire.MilliSatoshi(amt),
+		cltvDelta: finalDelta,
+	}, nil)
+	if err != nil {
+		vAssert(false, "newRoute fails on a well-formed path")
+		return
+	}
+	vReach("route")
+	vAssert(rt.TotalAmount == amountToSend, "amount on the first edge = netAmountReceived + capped inbound fee (what the search range-checks)")
+	vAssert(rt.TotalFees() == amountToSend-lnwire.MilliSatoshi(amt), "total fees = the search's amountToSend - amt (what the fee limit is checked on)")
+}
